@@ -36,7 +36,7 @@ ASSUMPTIONS = [
     "directive lines: only classification and directive name are judged; parameters and trailing comments are don't-care",
 ]
 SHARD_TIMEOUT = {"quick": 900, "thorough": 5400}
-SIZES = {"quick": (20000, 208), "thorough": (500000, 5008)}
+SIZES = {"quick": (32000, 320), "thorough": (500000, 5008)}
 NSHARDS = {"quick": 16, "thorough": 64}
 
 REQUIRED = (
@@ -53,7 +53,8 @@ REQUIRED = (
     + ["memimm:" + c for c in ("dec+/#", "dec-/#", "hex+/#", "hex-/#", "dec+/bare", "dec-/bare")]
     + ["lead:none", "lead:space", "lead:tab", "tail:none", "tail:ws", "tail:cmt//", "tail:cmt-tight//", "inner-ws:in1"]
     + ["sep:" + s for s in ("tight", "after", "before", "both", "wide", "tab")]
-    + ["line:comment///", "line:label/symbol", "line:directive", "line:label+trailing-comment"]
+    + ["line:comment///", "line:label/symbol", "line:directive", "line:label+trailing-comment", "line:directive+trailing-comment",
+       "line:directive+trailing-comment-with-comma"]
     + ["file/line:blank-empty", "file/line:blank-whitespace", "file/line:comment///", "file/line:label/symbol", "file/line:directive",
        "file/final-newline", "file/starts-with-blank", "file/mem:idx-ext", "file/tail:cmt//", "file/cc", "file/list:range"]
 )
@@ -69,7 +70,7 @@ def floors(tier):
     lines, files = SIZES[tier]
     f = {
         "evaluations": (lines + files) // 2,
-        "distinct_nontrivial": {"quick": 4000, "thorough": 60000}[tier],
+        "distinct_nontrivial": {"quick": 4500, "thorough": 65000}[tier],
         "monitor:parse_line": lines // 2,
         "monitor:parse_file": files // 2,
         "file-lines-judged": files * 6,
